@@ -129,6 +129,9 @@ class ExprMixin:
                 else:
                     out.append((s, Raise(self.new_exception(s, "KeyError"))))
             return out
+        h = self.registry.item_hook(self, st, o, k)
+        if h is not None:
+            return h
         raise Unsupported("subscript of %r" % (o,))
 
     def load_slice(self, st, o, sl):
@@ -186,9 +189,14 @@ class ExprMixin:
             def f(s, v):
                 return [(s2, b if isinstance(b, Raise) else vbool(z3.Not(b))) for s2, b in self.truth(s, v)]
             return self.bind(self.eval(st, node.operand), f)
-        if isinstance(node.op, ast.USub):
-            return self.bind(self.eval(st, node.operand), lambda s, v: [(s, vint(-self.to_int(s, v)))])
-        raise Unsupported("unary %s" % type(node.op).__name__)
+        def g(s, v):
+            if isinstance(node.op, ast.USub) and v.kind == "int":
+                return [(s, vint(-v.t))]
+            h = self.registry.unop_hook(self, s, node, v)
+            if h is not None:
+                return h
+            raise Unsupported("unary %s on %r" % (type(node.op).__name__, v))
+        return self.bind(self.eval(st, node.operand), g)
 
     def e_BoolOp(self, st, node):
         is_and = isinstance(node.op, ast.And)
@@ -250,6 +258,9 @@ class ExprMixin:
 
         def f(s, vs):
             a, b = vs
+            h = self.registry.compare_hook(self, s, op, a, b)
+            if h is not None:
+                return h
             return [(s, vbool(self.compare(s, op, a, b)))]
         return self.bind(self.eval_list(st, [node.left, node.comparators[0]]), f)
 
